@@ -73,11 +73,27 @@ Step(in) ==
      /\ depth' = (IF Dn(p).maxdepth = 0 THEN 0 ELSE depth + 1)
      /\ UNCHANGED pid
 
+\* inputs change without a clock edge (only for designs that ask for it: asynchronous resets, C04)
+AStep(in) ==
+  LET p == pid
+      i2 == Drive(FlatOf[p], impl, ImplIn(p, in))
+      s2 == SpecAsync(Dn(p).adl, SumOf[p], spec, in)
+  IN /\ Dn(p).async = 1
+     /\ s2.err # "undefined"
+     /\ impl' = i2
+     /\ spec' = s2
+     /\ err' = Check(p, i2, s2)
+     /\ last' = in
+     /\ UNCHANGED <<pid, depth>>
+
 \* maxdepth = 0: explore until the reachable product closes; n > 0: input sequences of length n only
 \* (used for stateless expression designs, where one step per operand valuation is exhaustive)
 Next == /\ err = "none"
         /\ (Dn(pid).maxdepth = 0 \/ depth < Dn(pid).maxdepth)
-        /\ \E in \in InSpace[pid] : Step(in)
+        \* work budget per design (transitions generated so far, breadth-first): a design whose product
+        \* does not close within the budget is reported as truncated in the evidence, never silently
+        /\ TLCGet(5000 + pid) < Dn(pid).budget
+        /\ \E in \in InSpace[pid] : Step(in) \/ AStep(in)
 
 Spec == Init /\ [][Next]_vars
 
